@@ -243,3 +243,91 @@ def arith_grid(family):
             for op in (b"INCR", b"DECR"):
                 lines += ["R", execgen.render([b"SET", b"c", a], [b"c"]), execgen.render([op, b"c"], [b"c"], full=True)]
     return lines
+
+
+def large_container_programs(rng, n, family):
+    """containers of 33-120 DISTINCT members (the family generators keep them small): a stateful mix of positional / ranked reads, removals and
+    re-insertions.  zset: ZRANK and ZRANGE windows (index, REV, WITHSCORES) between ZREM and ZADD (new member, score update moving a member across the
+    set, ties); hash: HGET / HMGET / HSTRLEN / HEXISTS / HLEN between HDEL, HSET, HSETNX, HINCRBY crossing digit boundaries; set: SISMEMBER / SCARD /
+    SINTER / SDIFF with a second large set between SREM, SADD, SMOVE; stream: XRANGE windows (inclusive, exclusive, COUNT) between XADD with MAXLEN."""
+    from . import execgen
+    lines = []
+    X = lambda a, ks, full=False: execgen.render([x if isinstance(x, bytes) else str(x).encode() for x in a], ks, full)
+    for _ in range(n):
+        ln = rng.randint(33, 120)
+        k, k2 = b"big", b"big2"
+        lines.append("R")
+        if family == "zset":
+            members = [b"m%03d" % i for i in range(ln)]
+            a = [b"ZADD", k]
+            for i, m in enumerate(members):
+                a += [b"%d" % (i * 10 if rng.random() < 0.9 else (i - 1) * 10), m]
+            lines.append(X(a, [k]))
+            for _ in range(rng.randint(10, 24)):
+                c = rng.choice(["rank", "rank", "range", "range", "rev", "rem", "rem", "add", "move", "move", "tie"])
+                m = rng.choice(members)
+                i = rng.choice([0, 1, ln // 2, ln - 2, ln - 1, ln, 31, 32, 33, 63, 64, 65])
+                if c == "rank":
+                    a = [b"ZRANK", k, m]
+                elif c == "range":
+                    a = [b"ZRANGE", k, i - 2, i + 2] + ([b"WITHSCORES"] if rng.random() < 0.5 else [])
+                elif c == "rev":
+                    a = [b"ZRANGE", k, rng.choice([0, 1, 5]), rng.choice([3, 9, -1, -3]), b"REV"]
+                elif c == "rem":
+                    a = [b"ZREM", k, m] + ([rng.choice(members)] if rng.random() < 0.3 else [])
+                elif c == "add":
+                    a = [b"ZADD", k, rng.randint(-5, ln * 10 + 5), b"n%d" % rng.randint(0, 40)]
+                elif c == "move":
+                    a = [b"ZADD", k, rng.choice([-1, ln * 5, ln * 10 + 1, rng.randint(0, ln * 10)]), m]
+                else:
+                    a = [b"ZADD", k, 50, rng.choice(members), 50, rng.choice(members)]
+                lines.append(X(a, [k]))
+            lines.append(X([b"ZRANGE", k, 0, -1, b"WITHSCORES"], [k], full=True))
+        elif family == "hash":
+            a = [b"HSET", k]
+            for i in range(ln):
+                a += [b"f%03d" % i, b"%d" % rng.choice([9, 99, 999, -1, -10, 0, i])]
+            lines.append(X(a, [k]))
+            for _ in range(rng.randint(10, 24)):
+                f = b"f%03d" % rng.randint(0, ln + 2)
+                c = rng.choice(["get", "mget", "strlen", "exists", "len", "del", "del", "set", "setnx", "incr", "incr", "incr"])
+                a = {"get": [b"HGET", k, f], "mget": [b"HMGET", k, f, b"f%03d" % rng.randint(0, ln), b"nosuch"], "strlen": [b"HSTRLEN", k, f], "exists": [b"HEXISTS", k, f],
+                     "len": [b"HLEN", k], "del": [b"HDEL", k, f, b"f%03d" % rng.randint(0, ln)], "set": [b"HSET", k, f, b"v", b"new%d" % rng.randint(0, 9), b"w"],
+                     "setnx": [b"HSETNX", k, f, b"nx"], "incr": [b"HINCRBY", k, f, rng.choice([1, -1, 1, 10, -10, 91, -1000])]}[c]
+                lines.append(X(a, [k]))
+            lines.append(X([b"HLEN", k], [k], full=True))
+        elif family == "set":
+            lines.append(X([b"SADD", k] + [b"m%03d" % i for i in range(ln)], [k]))
+            lines.append(X([b"SADD", k2] + [b"m%03d" % i for i in range(ln // 2, ln + 20)], [k2]))
+            for _ in range(rng.randint(10, 24)):
+                m = b"m%03d" % rng.randint(0, ln + 25)
+                c = rng.choice(["is", "is", "card", "inter", "diff", "rem", "rem", "add", "move", "istore", "ustore"])
+                a = {"is": [b"SISMEMBER", rng.choice([k, k2]), m], "card": [b"SCARD", rng.choice([k, k2])], "inter": [b"SINTER", k, k2], "diff": [b"SDIFF", k2, k],
+                     "rem": [b"SREM", k, m, b"m%03d" % rng.randint(0, ln)], "add": [b"SADD", rng.choice([k, k2]), m], "move": [b"SMOVE", k, k2, m],
+                     "istore": [b"SINTERSTORE", b"dst", k, k2], "ustore": [b"SUNIONSTORE", k, k, k2]}[c]
+                lines.append(X(a, [k, k2, b"dst"]))
+            lines.append(X([b"SCARD", k], [k, k2, b"dst"], full=True))
+        else:  # stream
+            for i in range(ln):
+                lines.append(X([b"XADD", k, b"%d-%d" % (i // 3 + 1, i % 3), b"f", b"v%d" % i], [k]))
+            nxt = ln // 3 + 2
+            for _ in range(rng.randint(8, 16)):
+                c = rng.choice(["range", "range", "excl", "count", "add", "trim", "rev"])
+                lo, hi = rng.randint(0, nxt), rng.randint(0, nxt + 1)
+                if c == "range":
+                    a = [b"XRANGE", k, b"%d" % lo, b"%d-%d" % (hi, rng.randint(0, 2))]
+                elif c == "excl":
+                    a = [b"XRANGE", k, b"(%d-1" % lo, b"+"] + ([b"COUNT", b"4"] if rng.random() < 0.5 else [])
+                elif c == "count":
+                    a = [b"XRANGE", k, b"-", b"+", b"COUNT", b"%d" % rng.choice([1, 2, 40, 200])]
+                elif c == "rev":
+                    a = [b"XRANGE", k, b"%d" % hi, b"%d" % lo]
+                elif c == "add":
+                    a = [b"XADD", k, b"%d-0" % nxt, b"g", b"h"]
+                    nxt += 1
+                else:
+                    a = [b"XADD", k, b"MAXLEN", b"%d" % rng.choice([ln, ln - 5, 40, 33, 10]), b"%d-0" % nxt, b"t", b"u"]
+                    nxt += 1
+                lines.append(X(a, [k]))
+            lines.append(X([b"XRANGE", k, b"-", b"+"], [k], full=True))
+    return lines
